@@ -383,11 +383,18 @@ func (env *Env) fieldOf(base SV, name string) SV {
 	for i := 0; i < st.NumFields(); i++ {
 		f := st.Field(i)
 		if f.Name() == name {
+			var r SV
 			if isPtr {
 				k := regHeap(fieldKey(bt, i), heapSortField(bt, i))
-				return SV{T: Select(env.st.heapArr(k, heapSorts[k]), base.T), Ty: f.Type()}
+				r = SV{T: Select(env.st.heapArr(k, heapSorts[k]), base.T), Ty: f.Type()}
+			} else {
+				r = SV{T: structField(bt, base.T, i), Ty: f.Type()}
 			}
-			return SV{T: structField(bt, base.T, i), Ty: f.Type()}
+			if ct, ok := f.Type().Underlying().(*types.Chan); ok && env.underBinder == 0 {
+				theU.DeclFunc("chtype", SInt, SInt)
+				env.st.add(Implies(Neq(r.T, Zero), Eq(App("chtype", SInt, r.T), IntLit(int64(env.x.P.typeTag(types.NewChan(types.SendRecv, ct.Elem())))))))
+			}
+			return r
 		}
 	}
 	// promoted field through an embedded struct
@@ -614,7 +621,7 @@ func (env *Env) call(e *Expr) SV {
 		return SV{T: App("dw", SInt, a.T), Ty: it}
 	case "content":
 		// content(r): ghost contents of an io.Reader value built by the library
-		r := Select(st.heapArr(ghRd, heapSorts[ghRd]), arg(0).T)
+		r := x.readerContent(st, arg(0).T)
 		x.strFacts(st, r)
 		return SV{T: r, Ty: types.Typ[types.String]}
 	case "wkey":
@@ -689,6 +696,19 @@ func (env *Env) call(e *Expr) SV {
 			env.st.add(o.st.assume[n0:]...)
 		}
 		return r
+	case "mapdom", "mapval":
+		m := arg(0)
+		if m.Ty == nil {
+			return env.fail("%s needs a typed map", e.Name)
+		}
+		if _, ok := m.Ty.Underlying().(*types.Map); !ok {
+			return env.fail("%s needs a map", e.Name)
+		}
+		dk, vk := mapKeys(m.Ty)
+		if e.Name == "mapdom" {
+			return SV{T: Select(st.heapArr(dk, heapSorts[dk]), m.T)}
+		}
+		return SV{T: Select(st.heapArr(vk, heapSorts[vk]), m.T)}
 	case "has":
 		// has(m, k): key k is present in map m
 		m, k := arg(0), arg(1)
@@ -801,7 +821,24 @@ func (env *Env) call(e *Expr) SV {
 		}
 		return env.fail("unknown function %s", e.Args[0].Lit)
 	case "forall", "exists":
-		// forall(i, lo, hi, body): lo <= i < hi
+		// forall(i, lo, hi, body): lo <= i < hi; forall(i, body): every integer (reference)
+		if len(e.Args) == 2 && e.Args[0].Kind == "ident" {
+			bv := Var("bv!"+e.Args[0].Name, SInt)
+			saved, had := env.binds[e.Args[0].Name]
+			env.binds[e.Args[0].Name] = specBinding{Val{T: bv}, nil}
+			env.underBinder++
+			body := env.eval(e.Args[1])
+			env.underBinder--
+			if had {
+				env.binds[e.Args[0].Name] = saved
+			} else {
+				delete(env.binds, e.Args[0].Name)
+			}
+			if e.Name == "forall" {
+				return SV{T: Forall([]*Term{bv}, env.asBool(body)), Ty: bt}
+			}
+			return SV{T: Not(Forall([]*Term{bv}, Not(env.asBool(body)))), Ty: bt}
+		}
 		if len(e.Args) != 4 || e.Args[0].Kind != "ident" {
 			return env.fail("%s(i, lo, hi, body)", e.Name)
 		}
